@@ -1,10 +1,10 @@
-import VizierModel.Lemmas.StoresStudy
+import VizierModel.Lemmas.StoresOps
 namespace VizierModel.Stores
 open VizierModel.Svc
 
 /-! ### whole write histories: the nested-dict store is the abstraction of the table store -/
 
-/-- the datastore write calls the service issues (studies and trials) -/
+/-- the datastore write calls the service issues (studies, trials, suggestion operations) -/
 inductive WOp where
   | createStudy (k : SKey) (h : Head)
   | updateStudy (k : SKey) (h : Head)
@@ -12,6 +12,10 @@ inductive WOp where
   | createTrial (k : SKey) (t : Trial)
   | updateTrial (k : SKey) (t : Trial)
   | deleteTrial (k : SKey) (id : Nat)
+  /-- SuggestTrials: `max_suggestion_operation_number` (NotFound → 0), then create operation number + 1 -/
+  | createNextOp (k : SKey) (client : String) (done : Bool) (res : OpResult)
+  /-- update of an operation the RPC holds (it was created or fetched by the same RPC) -/
+  | updateOp (k : SKey) (op : SugOp)
   deriving Repr
 
 def Ram.exec (r : Ram) : WOp → Except DsErr Ram
@@ -21,6 +25,16 @@ def Ram.exec (r : Ram) : WOp → Except DsErr Ram
   | .createTrial k t => r.createTrial k t
   | .updateTrial k t => r.updateTrial k t
   | .deleteTrial k id => r.deleteTrial k id
+  | .createNextOp k c d res =>
+    match r.loadStudy k with
+    | .error e => .error e
+    | .ok _ =>
+      let n := orZero (r.maxOpNumber k c)     -- `len(ops)`
+      r.createOp k { client := c, num := n + 1, done := d, result := res }
+  | .updateOp k op =>
+    match r.getOp k op.client op.num with
+    | .error e => .error e
+    | .ok _ => r.updateOp k op
 
 /-- `create_trial` is only ever issued by the service after `max_trial_id` / `load_study` of the same
     study succeeded under the study lock (vizier_service.py CreateTrial, SuggestTrials): the guard is
@@ -32,17 +46,130 @@ def Sql.exec (q : Sql) : WOp → Except DsErr Sql
   | .createTrial k t => if q.hasStudy k then q.createTrial k t else .error .notFound
   | .updateTrial k t => q.updateTrial k t
   | .deleteTrial k id => q.deleteTrial k id
+  | .createNextOp k c d res =>
+    match q.loadStudy k with
+    | .error e => .error e
+    | .ok _ =>
+      let n := orZero (q.maxOpNumber k c)     -- `max(operation_number)`
+      q.createOp k { client := c, num := n + 1, done := d, result := res }
+  | .updateOp k op =>
+    match q.getOp k op.client op.num with
+    | .error e => .error e
+    | .ok _ => q.updateOp k op
 
-theorem exec_sim (q : Sql) (hw : WF q) (op : WOp) :
-    (absQ q).exec op = (q.exec op).map absQ ∧ (∀ q', q.exec op = .ok q' → WF q') := by
+theorem loadStudy_ok_hasStudy (q : Sql) (k : SKey) (h : Head) (hl : q.loadStudy k = .ok h) : q.hasStudy k = true := by
+  unfold Sql.loadStudy at hl
+  rw [hasStudy_iff_find]
+  cases hf : q.studies.find? (·.1 == k) with
+  | none => rw [hf] at hl; cases hl
+  | some r => rfl
+
+theorem exec_sim (q : Sql) (hw : WF q) (hn : Numbered q) (op : WOp) :
+    (absQ q).exec op = (q.exec op).map absQ ∧ (∀ q', q.exec op = .ok q' → WF q' ∧ Numbered q') := by
+  have lift : ∀ {R : Except DsErr Ram} {Q : Except DsErr Sql},
+      (R = Q.map absQ ∧ ∀ q', Q = .ok q' → WF q') → (∀ q', Q = .ok q' → Numbered q') →
+      (R = Q.map absQ ∧ ∀ q', Q = .ok q' → WF q' ∧ Numbered q') :=
+    fun h1 h2 => ⟨h1.1, fun q' hq' => ⟨h1.2 q' hq', h2 q' hq'⟩⟩
   cases op with
-  | createStudy k h => exact createStudy_sim q hw k h
-  | updateStudy k h => exact updateStudy_sim q hw k h
-  | deleteStudy k => exact deleteStudy_sim q hw k
+  | createNextOp k c d res =>
+    simp only [Ram.exec, Sql.exec]
+    rw [loadStudy_sim q hw]
+    cases hl : q.loadStudy k with
+    | error e => exact ⟨rfl, by intro q' hq'; cases hq'⟩
+    | ok h =>
+      have hex := loadStudy_ok_hasStudy q k h hl
+      simp only
+      rw [maxOpNumber_sim q hw k c (hn k c), sql_maxOp_numbered q hn k c]
+      have hs := createOp_sim q hw k { client := c, num := (q.opsOf k c).length + 1, done := d, result := res } hex
+      refine ⟨hs.1, ?_⟩
+      intro q' hq'
+      refine ⟨hs.2 q' hq', ?_⟩
+      unfold Sql.createOp at hq'
+      split at hq'
+      · cases hq'
+      · injection hq' with hq'
+        subst hq'
+        exact numbered_append q hn k _ rfl
+  | updateOp k op =>
+    simp only [Ram.exec, Sql.exec]
+    rw [getOp_sim q hw]
+    cases hg : q.getOp k op.client op.num with
+    | error e => exact ⟨rfl, by intro q' hq'; cases hq'⟩
+    | ok o =>
+      simp only
+      have hop := getOp_ok_any q k op.client op.num o hg
+      have hne : q.opsOf k op.client ≠ [] := by intro e; rw [e] at hop; simp at hop
+      have hex := hasStudy_of_op q hw k op.client hne
+      have hs := updateOp_sim q hw k op hex hop
+      refine ⟨hs.1, ?_⟩
+      intro q' hq'
+      refine ⟨hs.2 q' hq', ?_⟩
+      unfold Sql.updateOp at hq'
+      simp only [hop, if_true, Except.ok.injEq] at hq'
+      subst hq'
+      exact numbered_update q hn k op
+  | createStudy k h =>
+    refine lift (createStudy_sim q hw k h) ?_
+    intro q' hq'
+    change q.createStudy k h = _ at hq'
+    unfold Sql.createStudy at hq'
+    split at hq'
+    · cases hq'
+    · injection hq' with hq'
+      subst hq'
+      exact numbered_of_ops_eq q _ rfl hn
+  | updateStudy k h =>
+    refine lift (updateStudy_sim q hw k h) ?_
+    intro q' hq'
+    change q.updateStudy k h = _ at hq'
+    unfold Sql.updateStudy at hq'
+    split at hq'
+    · injection hq' with hq'
+      subst hq'
+      exact numbered_of_ops_eq q _ rfl hn
+    · cases hq'
+  | deleteStudy k =>
+    refine lift (deleteStudy_sim q hw k) ?_
+    intro q' hq'
+    change q.deleteStudy k = _ at hq'
+    unfold Sql.deleteStudy at hq'
+    split at hq'
+    · injection hq' with hq'
+      subst hq'
+      exact numbered_delete q hn k _ _
+    · cases hq'
+  | updateTrial k t =>
+    refine lift (updateTrial_sim q hw k t) ?_
+    intro q' hq'
+    change q.updateTrial k t = _ at hq'
+    unfold Sql.updateTrial at hq'
+    split at hq'
+    · injection hq' with hq'
+      subst hq'
+      exact numbered_of_ops_eq q _ rfl hn
+    · cases hq'
+  | deleteTrial k id =>
+    refine lift (deleteTrial_sim q hw k id) ?_
+    intro q' hq'
+    change q.deleteTrial k id = _ at hq'
+    unfold Sql.deleteTrial at hq'
+    split at hq'
+    · injection hq' with hq'
+      subst hq'
+      exact numbered_of_ops_eq q _ rfl hn
+    · cases hq'
   | createTrial k t =>
-    unfold Ram.exec Sql.exec
+    simp only [Ram.exec, Sql.exec]
     by_cases hs : q.hasStudy k = true
-    · simp only [hs, if_true]; exact createTrial_sim q hw k t hs
+    · simp only [hs, if_true]
+      refine lift (createTrial_sim q hw k t hs) ?_
+      intro q' hq'
+      unfold Sql.createTrial at hq'
+      split at hq'
+      · cases hq'
+      · injection hq' with hq'
+        subst hq'
+        exact numbered_of_ops_eq q _ rfl hn
     · have hs' : q.hasStudy k = false := by
         cases hh : q.hasStudy k with
         | true => exact absurd hh hs
@@ -53,8 +180,6 @@ theorem exec_sim (q : Sql) (hw : WF q) (op : WOp) :
         rw [node_absQ q hw, hasStudy_false_find q k hs']
         rfl
       · intro q' hq'; simp [hs'] at hq'
-  | updateTrial k t => exact updateTrial_sim q hw k t
-  | deleteTrial k id => exact deleteTrial_sim q hw k id
 
 /-- a failing call leaves the store unchanged; the outcome (ok / error kind) is recorded -/
 def Ram.runW (r : Ram) : List WOp → Ram × List (Option DsErr)
@@ -71,22 +196,22 @@ def Sql.runW (q : Sql) : List WOp → Sql × List (Option DsErr)
     | .ok q' => let x := Sql.runW q' ops; (x.1, none :: x.2)
     | .error e => let x := Sql.runW q ops; (x.1, some e :: x.2)
 
-theorem runW_sim (q : Sql) (hw : WF q) (ops : List WOp) :
-    (absQ q).runW ops = (absQ (q.runW ops).1, (q.runW ops).2) ∧ WF (q.runW ops).1 := by
+theorem runW_sim (q : Sql) (hw : WF q) (hn : Numbered q) (ops : List WOp) :
+    (absQ q).runW ops = (absQ (q.runW ops).1, (q.runW ops).2) ∧ WF (q.runW ops).1 ∧ Numbered (q.runW ops).1 := by
   induction ops generalizing q with
-  | nil => exact ⟨rfl, hw⟩
+  | nil => exact ⟨rfl, hw, hn⟩
   | cons op ops ih =>
-    have hs := exec_sim q hw op
+    have hs := exec_sim q hw hn op
     unfold Ram.runW Sql.runW
     cases hq : q.exec op with
     | ok q' =>
       have hr : (absQ q).exec op = .ok (absQ q') := by rw [hs.1, hq]; rfl
-      have := ih q' (hs.2 q' hq)
+      have := ih q' (hs.2 q' hq).1 (hs.2 q' hq).2
       simp only [hr, this.1]
       exact ⟨trivial, this.2⟩
     | error e =>
       have hr : (absQ q).exec op = .error e := by rw [hs.1, hq]; rfl
-      have := ih q hw
+      have := ih q hw hn
       simp only [hr, this.1]
       exact ⟨trivial, this.2⟩
 
@@ -97,6 +222,9 @@ inductive ROp where
   | getTrial (k : SKey) (id : Nat)
   | listTrials (k : SKey)
   | maxTrialId (k : SKey)
+  | getOp (k : SKey) (client : String) (num : Nat)
+  | listOps (k : SKey) (client : String)
+  | maxOpNumber (k : SKey) (client : String)
 
 inductive RVal where
   | head (h : Except DsErr Head)
@@ -104,6 +232,8 @@ inductive RVal where
   | trial (t : Except DsErr Trial)
   | trials (l : Except DsErr (List Trial))
   | num (n : Except DsErr Nat)
+  | sop (o : Except DsErr SugOp)
+  | sops (l : Except DsErr (List SugOp))
 
 def Ram.read (r : Ram) : ROp → RVal
   | .loadStudy k => .head (r.loadStudy k)
@@ -111,6 +241,9 @@ def Ram.read (r : Ram) : ROp → RVal
   | .getTrial k id => .trial (r.getTrial k id)
   | .listTrials k => .trials (r.listTrials k)
   | .maxTrialId k => .num (r.maxTrialId k)
+  | .getOp k c n => .sop (r.getOp k c n)
+  | .listOps k c => .sops (r.listOps k c)
+  | .maxOpNumber k c => .num (r.maxOpNumber k c)
 
 def Sql.read (q : Sql) : ROp → RVal
   | .loadStudy k => .head (q.loadStudy k)
@@ -118,13 +251,19 @@ def Sql.read (q : Sql) : ROp → RVal
   | .getTrial k id => .trial (q.getTrial k id)
   | .listTrials k => .trials (q.listTrials k)
   | .maxTrialId k => .num (q.maxTrialId k)
+  | .getOp k c n => .sop (q.getOp k c n)
+  | .listOps k c => .sops (q.listOps k c)
+  | .maxOpNumber k c => .num (q.maxOpNumber k c)
 
-theorem read_sim (q : Sql) (hw : WF q) (rd : ROp) : (absQ q).read rd = q.read rd := by
+theorem read_sim (q : Sql) (hw : WF q) (hn : Numbered q) (rd : ROp) : (absQ q).read rd = q.read rd := by
   cases rd with
   | loadStudy k => simp only [Ram.read, Sql.read, loadStudy_sim q hw]
   | listStudies o => simp only [Ram.read, Sql.read, listStudies_sim q hw]
   | getTrial k id => simp only [Ram.read, Sql.read, getTrial_sim q hw]
   | listTrials k => simp only [Ram.read, Sql.read, listTrials_sim q hw]
   | maxTrialId k => simp only [Ram.read, Sql.read, maxTrialId_sim q hw]
+  | getOp k c n => simp only [Ram.read, Sql.read, getOp_sim q hw]
+  | listOps k c => simp only [Ram.read, Sql.read, listOps_sim q hw]
+  | maxOpNumber k c => simp only [Ram.read, Sql.read, maxOpNumber_sim q hw k c (hn k c)]
 
 end VizierModel.Stores
